@@ -24,6 +24,7 @@ def table():
                 '   case thdm::Yukawa_type::type_X:\n      return 1.0/get_tan_beta();\n   case thdm::Yukawa_type::type_Y:\n      return 1.0/get_tan_beta();\n   case thdm::Yukawa_type::aligned:\n      return zeta_l;', 'zeta_table'),
         'C10': ('src/THDM/gm2_2loop_B.cpp', 'return pref * res * thdm.cos_beta_minus_alpha * thdm.zetal;', 'return pref * res * (thdm.cos_beta_minus_alpha + 1e-3) * thdm.zetal;', ''),
         'C11': ('src/THDM/gm2_2loop_B.cpp', '   shift(u, 1.0, eps_shift);\n\n   const auto cw4 = cw2*cw2;\n   const auto c0', '\n   const auto cw4 = cw2*cw2;\n   const auto c0', 'domains.YF1'),
+        'C12': ('src/gm2_linalg.hpp', '    reorder_svd_errbd<Real,Scalar,M,N>(m, s, u, v, s_errbd, u_errbd, v_errbd);\n    if (u) { u->transposeInPlace(); }', '    reorder_svd_errbd<Real,Scalar,M,N>(m, s, u, v, s_errbd, u_errbd, v_errbd);', 'fs_svd'),
         'C13': ('src/gm2_slha_io.cpp', '   case 1: data.mu = value  ; break;\n   case 2: data.tanb = value; break;', '   case 1: data.tanb = value; break;\n   case 2: data.mu = value  ; break;', 'key_table'),
         'C14': ('src/gm2_slha_io.cpp', '   if (is_integer(value) &&\n       value >= std::numeric_limits<int>::min() &&\n       value <= std::numeric_limits<int>::max()) {',
                 '   if (is_integer(value)) {', 'read_integer'),
